@@ -3,6 +3,7 @@ package gedcom
 import (
 	"fmt"
 	"strings"
+	"sync"
 	"time"
 )
 
@@ -17,6 +18,11 @@ type IndividualNode struct {
 	// The cached values above are only valid while these are the current
 	// cache generation, see invalidateCaches.
 	familiesGeneration, spousesGeneration, uniqueIDsGeneration int64
+
+	// The values are calculated on demand, which can happen from several
+	// goroutines at the same time (such as when comparing individuals with
+	// multiple jobs).
+	familiesMutex, spousesMutex, uniqueIDsMutex sync.Mutex
 }
 
 // SpouseChildren connects a single spouse to a set of children. The children
@@ -31,8 +37,7 @@ type SpouseChildren map[*IndividualNode]ChildNodes
 
 func newIndividualNode(document *Document, pointer string, children ...Node) *IndividualNode {
 	return &IndividualNode{
-		newSimpleDocumentNode(document, TagIndividual, "", pointer, children...),
-		false, false, nil, nil, nil, 0, 0, 0,
+		simpleDocumentNode: newSimpleDocumentNode(document, TagIndividual, "", pointer, children...),
 	}
 }
 
@@ -86,6 +91,9 @@ func (node *IndividualNode) Spouses() (spouses IndividualNodes) {
 		return nil
 	}
 
+	node.spousesMutex.Lock()
+	defer node.spousesMutex.Unlock()
+
 	generation := currentCacheGeneration()
 	if node.cachedSpouses && node.spousesGeneration == generation {
 		return node.spouses
@@ -128,6 +136,9 @@ func (node *IndividualNode) Families() (families FamilyNodes) {
 	if node == nil {
 		return nil
 	}
+
+	node.familiesMutex.Lock()
+	defer node.familiesMutex.Unlock()
 
 	generation := currentCacheGeneration()
 	if node.cachedFamilies && node.familiesGeneration == generation {
@@ -862,6 +873,9 @@ func (node *IndividualNode) UniqueIDs() (nodes []*UniqueIDNode) {
 // commonly unique identifiers such as the FamilySearch ID or UUID generated by
 // some applications.
 func (node *IndividualNode) UniqueIdentifiers() *StringSet {
+	node.uniqueIDsMutex.Lock()
+	defer node.uniqueIDsMutex.Unlock()
+
 	generation := currentCacheGeneration()
 	if node.cachedUniqueIDs == nil || node.uniqueIDsGeneration != generation {
 		node.cachedUniqueIDs = NewStringSet()
